@@ -1300,7 +1300,8 @@ def r00(ctx, repo, files=None):
                     and isinstance(a.targets[0], ast.Name) \
                     and isinstance(a.value, ast.Call) and U(
                         a.value.func) in ('np.zeros_like', 'np.empty_like',
-                                          'np.ones_like', 'np.full_like') \
+                                          'np.ones_like', 'np.full_like',
+                                          'np.repeat', 'np.tile') \
                     and a.value.args and not any(
                         k.arg == 'dtype' for k in a.value.keywords) \
                     and a.targets[0].id in stored_into and any(
